@@ -101,10 +101,15 @@ def step (s : Sess) (c : Cmd) : Sess × String × String :=
     let isNew := c.op == "new"
     let cap := if isNew then c.nat "cap" Gen.ARRAY_DEFAULT_CAPACITY else Gen.ARRAY_DEFAULT_CAPACITY
     let f := effFactor (match (if isNew then c.str "exp" else none) with | some e => parseF32 e | none => defaultFactor)
-    -- block sizes the driver cannot materialise (the C side sees a wrapped byte count there)
-    if cap > 2 ^ 24 ∨ f > 1024 then ({ blind := true }, "S ?", "M ?") else
+    -- growth steps the driver cannot materialise
+    if f > 1024 ∨ (2 ^ 24 < cap ∧ cap * 8 ≤ 2 ^ 40) then ({ blind := true }, "S ?", "M ?") else
+    -- a request above 2^40 bytes is refused by the harness allocator (`refuse_now` in common.h, counted
+    -- as `absurd=`, not as a scheduled refusal): the buffer is the 2nd allocator call
+    let absurd := cap * 8 > 2 ^ 40 ∧ c.sched.isEmpty
+    let m := if absurd then { m with sched := [false, true] } else m
     let (st, r, m) := Arr.new cap (growF f) (exGeF f) m
-    let sst : Stat := if cap = 0 ∨ exGeF f (Gen.CC_MAX_ELEMENTS / cap) then .errInvalidCapacity else if refused then .errAlloc else .ok
+    let m := if absurd then { m with nrefused := 0 } else m
+    let sst : Stat := if cap = 0 ∨ exGeF f (Gen.CC_MAX_ELEMENTS / cap) ∨ cap > Gen.CC_MAX_ELEMENTS / 8 then .errInvalidCapacity else if refused then .errAlloc else .ok
     let s' : Sess := { slots := [r, none, none, none], sslots := [if sst = .ok then some [] else none, none, none, none], mem := m }
     fin s' (fmtStat sst) (fmtStat st)
   | _ =>
